@@ -345,7 +345,8 @@ def judge(pname, word, cfgname, _attr=True):
 
 
 PERSIST = ['LOOP', 'DEFCALL', 'IF', 'TRY', 'EVAL']
-PLACEMENTS = [('direct', None)] + [('persist', x) for x in PERSIST] + [('inherit', y) for y in CTX]
+PLACEMENTS = ([('direct', None)] + [('persist', x) for x in PERSIST] + [('inherit', y) for y in CTX] +
+              [('viafn', y) for y in CTX] + [('noopcall', y) for y in CTX])
 _IDLE = op('OP_TRUE') + op('OP_POP0')
 
 
@@ -369,6 +370,26 @@ def judge_flagop(opname, k, word, placement=('direct', None)):
     elif how == 'inherit':
         code = flagop + wrap(arg, pcode)
         what = 'not-seen-inside-a-following-%s' % arg
+    elif how == 'viafn':
+        # the flag instruction sits in a function that is called inside the construct, right before the probe: as at top
+        # level, it acts on the flags its caller runs with
+        code = op('OP_DEF', 8) + L2(flagop) + flagop + wrap(arg, op('OP_CALL', 8) + pcode)
+        what = 'in-a-function-called-inside-%s-does-not-act-on-the-caller' % arg
+    elif how == 'noopcall':
+        # metamorphic: calling an unrelated idle function next to the flag instruction changes nothing that is observed
+        # after the construct (whatever scoping the construct has)
+        idle = op('OP_DEF', 8) + L2(_IDLE) + _IDLE
+        cfg = 'off' if opname == 'OP_SET_FLAG' else 'default'
+        r1 = run_probe(pname, word, cfg, code_override=idle + wrap(arg, flagop) + pcode)
+        r2 = run_probe(pname, word, cfg, code_override=idle + wrap(arg, flagop + op('OP_CALL', 8)) + pcode)
+        if r1['err'] is None and r2['err'] is None:
+            on1 = (r1['sig'] >= 1) if k == 10 else (FLAGKEYS[k] in r1['cache'])
+            on2 = (r2['sig'] >= 1) if k == 10 else (FLAGKEYS[k] in r2['cache'])
+            if on1 != on2:
+                fails.append(('flag-instruction/CALL-of-an-idle-function-changes-a-flag-outside-%s' % arg,
+                              '%s %d in %r: after the construct %s without the call, %s with it' % (
+                                  opname[3:], k, word, 'on' if on1 else 'off', 'on' if on2 else 'off')))
+        return fails
     else:
         raise ValueError('placement')
     # SET is observed against a configuration that turned the flag off, UNSET against the default (on)
@@ -471,7 +492,7 @@ def task_flagops(ctx):
                     n += 1
                     for s, d in fails:
                         ctx.fail('flagop', s, {'check': 'flagop', 'context': list(word), 'op': opname, 'flag': k, 'placement': list(pl)}, d)
-    ctx.exhaustive['flag instruction x integer flag 0-10 x contexts of depth <= 2 x placement (direct, 5 persist, 11 inherit)'] = n
+    ctx.exhaustive['flag instruction x integer flag 0-10 x contexts of depth <= 2 x placement (direct, 5 persist, 11 inherit, 11 via function, 11 idle call)'] = n
     ctx.sample({'check': 'flagop', 'context': ['IF'], 'op': 'OP_UNSET_FLAG', 'flag': 1})
 
 
